@@ -182,3 +182,21 @@ Theorem C08_round_sugar_ties :
        round_at false 1 (NF 2.5) = Ok (VN (NF 2)) /\ round_at false 1 (NF (-0.5)) = Ok (VN (NF (- 0))).
 Proof. exact round_sugar_ties. Qed.
 Print Assumptions C08_round_sugar_ties.
+
+Theorem C08_find_indices_spec :
+  forall declared ids : list Z,
+       (incl ids declared ->
+        exists idx : list Z,
+          find_indices declared ids = Ok idx /\
+          length idx = length ids /\
+          (forall (k : nat) (id : Z),
+           nth_error ids k = Some id ->
+           exists i : Z, nth_error idx k = Some i /\ 0 <= i /\ nth_error declared (Z.to_nat i) = Some id)) /\
+       (~ incl ids declared -> find_indices declared ids = Err EValue).
+Proof. exact find_indices_spec. Qed.
+Print Assumptions C08_find_indices_spec.
+
+Theorem C08_find_indices_all_declared :
+  find_indices [7; 3; 9] [9; 7; 3; 9] = Ok [2; 0; 1; 2] /\ find_indices [5] [5] = Ok [0].
+Proof. exact find_indices_all_declared. Qed.
+Print Assumptions C08_find_indices_all_declared.
